@@ -555,6 +555,15 @@ func c04R2(c *Ctx, p *Prog) {
 										}
 									}
 								case *ast.AssignStmt:
+									// the replacement may be put into a local first and the edit recorded after the switch
+									if (y.Tok == token.ASSIGN || y.Tok == token.DEFINE) && len(y.Rhs) == 1 && len(y.Lhs) == 1 {
+										if tv := info.Types[y.Rhs[0]]; tv.Value != nil && tv.Value.Kind() == constant.String {
+											if lt := info.TypeOf(y.Lhs[0]); lt != nil && isString(lt) {
+												s := constant.StringVal(tv.Value)
+												repl = &s
+											}
+										}
+									}
 									if (y.Tok == token.MUL_ASSIGN || y.Tok == token.QUO_ASSIGN) && len(y.Rhs) == 1 {
 										if tv := info.Types[y.Rhs[0]]; tv.Value != nil {
 											if r := ratOfConst(tv.Value); r != nil && r.Sign() != 0 {
@@ -791,8 +800,12 @@ func c04R3(c *Ctx, p *Prog) {
 	var setPos = map[ssa.Value]token.Pos{}
 	flagUpd := map[string]bool{} // rune -> value stored
 	var tokFn *ssa.Function
+	// the tokenizer: the methods of the tokenizer state that walk the unit (one function, or a skipping helper and a
+	// token-end scan in different functions)
+	var tokFns []*ssa.Function
 	for _, fn := range p.Funcs("benchunit") {
-		if len(storesToField(fn, denomF)) == 0 {
+		isMethod := fn.Signature.Recv() != nil && recvName(fn.Signature.Recv().Type()) == "parser"
+		if len(storesToField(fn, denomF)) == 0 && !isMethod {
 			continue
 		}
 		// skip constructors that only initialise
@@ -801,11 +814,19 @@ func c04R3(c *Ctx, p *Prog) {
 			if _, ok := in.(*ssa.Next); ok {
 				hasNext = true
 			}
+			if call, ok := in.(*ssa.Call); ok {
+				if co := calleeObj(&call.Call); co != nil && co.Pkg() != nil && (co.Pkg().Path() == "strings" || co.Pkg().Path() == "bytes") && strings.HasSuffix(co.Name(), "Func") {
+					hasNext = true
+				}
+			}
 		})
 		if !hasNext {
 			continue
 		}
-		tokFn = fn
+		if tokFn == nil || len(storesToField(fn, denomF)) > 0 {
+			tokFn = fn
+		}
+		tokFns = append(tokFns, fn)
 		eachInstr(fn, func(b *ssa.BasicBlock, in ssa.Instruction) {
 			switch x := in.(type) {
 			case *ssa.BinOp:
@@ -868,56 +889,58 @@ func c04R3(c *Ctx, p *Prog) {
 	}
 	// a loop may have been replaced by strings.IndexFunc/TrimLeftFunc with a rune predicate of the package: the
 	// predicate's tests on its rune parameter form that loop's separator set
-	eachInstr(tokFn, func(_ *ssa.BasicBlock, in ssa.Instruction) {
-		call, ok := in.(*ssa.Call)
-		if !ok {
-			return
-		}
-		var preds []*ssa.Function
-		if sc := call.Call.StaticCallee(); sc != nil && sc.Pkg != nil && sc.Pkg.Pkg.Path() == tidyPkg {
-			preds = append(preds, sc)
-		}
-		for _, a := range call.Call.Args {
-			switch x := stripConv(a).(type) {
-			case *ssa.Function:
-				preds = append(preds, x)
-			case *ssa.MakeClosure:
-				if f, ok := x.Fn.(*ssa.Function); ok {
-					preds = append(preds, f)
-				}
+	for _, tf := range tokFns {
+		eachInstr(tf, func(_ *ssa.BasicBlock, in ssa.Instruction) {
+			call, ok := in.(*ssa.Call)
+			if !ok {
+				return
 			}
-		}
-		for _, f := range preds {
-			if f.Blocks == nil || f.Signature.Params().Len() != 1 || f.Signature.Results().Len() != 1 || !isBoolT(f.Signature.Results().At(0).Type()) {
-				continue
+			var preds []*ssa.Function
+			if sc := call.Call.StaticCallee(); sc != nil && sc.Pkg != nil && sc.Pkg.Pkg.Path() == tidyPkg {
+				preds = append(preds, sc)
 			}
-			if b, ok := f.Signature.Params().At(0).Type().Underlying().(*types.Basic); !ok || b.Kind() != types.Int32 {
-				continue
-			}
-			prm := f.Params[len(f.Params)-1]
-			eachInstr(f, func(_ *ssa.BasicBlock, in2 ssa.Instruction) {
-				switch y := in2.(type) {
-				case *ssa.BinOp:
-					if y.Op != token.EQL && y.Op != token.NEQ {
-						return
-					}
-					if cv, ok := constInt(y.Y); ok && stripConv(y.X) == prm {
-						if sets[prm] == nil {
-							sets[prm] = map[string]bool{}
-						}
-						sets[prm][string(rune(cv))] = true
-					}
-				case *ssa.Call:
-					if objIs(calleeObj(&y.Call), "unicode", "", "IsSpace") && stripConv(y.Call.Args[0]) == prm {
-						if sets[prm] == nil {
-							sets[prm] = map[string]bool{}
-						}
-						sets[prm]["<space>"] = true
+			for _, a := range call.Call.Args {
+				switch x := stripConv(a).(type) {
+				case *ssa.Function:
+					preds = append(preds, x)
+				case *ssa.MakeClosure:
+					if f, ok := x.Fn.(*ssa.Function); ok {
+						preds = append(preds, f)
 					}
 				}
-			})
-		}
-	})
+			}
+			for _, f := range preds {
+				if f.Blocks == nil || f.Signature.Params().Len() != 1 || f.Signature.Results().Len() != 1 || !isBoolT(f.Signature.Results().At(0).Type()) {
+					continue
+				}
+				if b, ok := f.Signature.Params().At(0).Type().Underlying().(*types.Basic); !ok || b.Kind() != types.Int32 {
+					continue
+				}
+				prm := f.Params[len(f.Params)-1]
+				eachInstr(f, func(_ *ssa.BasicBlock, in2 ssa.Instruction) {
+					switch y := in2.(type) {
+					case *ssa.BinOp:
+						if y.Op != token.EQL && y.Op != token.NEQ {
+							return
+						}
+						if cv, ok := constInt(y.Y); ok && stripConv(y.X) == prm {
+							if sets[prm] == nil {
+								sets[prm] = map[string]bool{}
+							}
+							sets[prm][string(rune(cv))] = true
+						}
+					case *ssa.Call:
+						if objIs(calleeObj(&y.Call), "unicode", "", "IsSpace") && stripConv(y.Call.Args[0]) == prm {
+							if sets[prm] == nil {
+								sets[prm] = map[string]bool{}
+							}
+							sets[prm]["<space>"] = true
+						}
+					}
+				})
+			}
+		})
+	}
 	wantSet := "* - / <space>"
 	var all []string
 	for nx, s := range sets {
